@@ -530,6 +530,12 @@ fn consumer_diff(v: &Value) -> Option<(String, String)> {
     for c in CONSUMERS {
         let a = run_prog(c, std::slice::from_ref(v)).stack;
         let p = run_prog(c, std::slice::from_ref(&plain)).stack;
+        // a run cut short by the execution limit says nothing about the marks (the marked
+        // value may simply take the fast path within the limit)
+        let timed_out = |r: &Result<Vec<Value>, String>| matches!(r, Err(e) if e.contains("Maximum execution time"));
+        if timed_out(&a) || timed_out(&p) {
+            continue;
+        }
         let same = match (&a, &p) {
             (Ok(x), Ok(y)) => x == y,
             (Err(_), Err(_)) => true,
